@@ -16,9 +16,9 @@ import (
 )
 
 func v(name string, steps ...string) Expr { return Var{Name: name, Steps: steps} }
-func lits(s string) Expr                   { return Lit{V: StrV(s)} }
-func T(s string) Node                      { return Text{S: s} }
-func O(e Expr) Node                        { return Out{E: e} }
+func lits(s string) Expr                  { return Lit{V: StrV(s)} }
+func T(s string) Node                     { return Text{S: s} }
+func O(e Expr) Node                       { return Out{E: e} }
 
 // argument kinds at the call site
 func argExprs() []Expr {
@@ -146,6 +146,42 @@ func run(r *eng.Runner) {
 					}
 				}
 			}
+		}
+	}
+
+	// ---- which names an import binds ----
+	r.Group("import-names", "prog.case", "an import binds exactly the names it lists (the alias, not the original name, when one is given): next to a local macro / a set variable / a macro of another library with the original name, defined before or after the import; names of the library that are not listed stay unbound")
+	{
+		mk := func(name, mark string, export bool) Macro {
+			return Macro{Name: name, Params: []Param{{Name: "p"}}, Body: []Node{T("<" + mark + ":"), O(v("p")), T(">")}, Export: export}
+		}
+		call := func(n string) Node { return O(Call{Name: n, Args: []Expr{lits("x")}}) }
+		bound := func(n string) Node {
+			return If{Conds: []Expr{v(n)}, Bodies: [][]Node{{T("[" + n + " bound]")}, {T("[" + n + " unbound]")}}}
+		}
+		lib := []Node{mk("mac", "lib.mac", true), mk("mac2", "lib.mac2", true)}
+		lib2 := []Node{mk("mac", "lib2.mac", true)}
+		impAlias := Import{File: "lib", Names: []ImportName{{Name: "mac", Alias: "alias"}}}
+		mains := [][]Node{
+			{mk("mac", "local", false), impAlias, call("mac"), call("alias"), bound("mac2")},
+			{impAlias, mk("mac", "local", false), call("mac"), call("alias")},
+			{impAlias, bound("mac"), bound("mac2"), call("alias")},
+			{Set{Name: "mac", E: lits("a variable")}, impAlias, O(v("mac")), call("alias")},
+			{Import{File: "lib2", Names: []ImportName{{Name: "mac"}}}, impAlias, call("mac"), call("alias")},
+			{impAlias, Import{File: "lib2", Names: []ImportName{{Name: "mac"}}}, call("mac"), call("alias")},
+			{Import{File: "lib", Names: []ImportName{{Name: "mac", Alias: "m2"}, {Name: "mac2", Alias: "mac"}}}, call("mac"), call("m2"), bound("mac2")},
+			{Import{File: "lib", Names: []ImportName{{Name: "mac2"}}}, bound("mac"), call("mac2")},
+			{Import{File: "lib", Names: []ImportName{{Name: "mac"}, {Name: "mac2", Alias: "other"}}}, call("mac"), call("other"), bound("mac2")},
+			{mk("alias", "local-alias", false), impAlias, call("alias"), bound("mac")},
+			{With{Pairs: []Pair{{Name: "mac", E: lits("with-var")}}, Body: []Node{impAlias, O(v("mac")), call("alias")}}, bound("alias")},
+		}
+		for i, main := range mains {
+			c, ok := prog.Build(map[string][]Node{"/main": main, "/lib": lib, "/lib2": lib2}, ctx, nil, "macro-import-names", fmt.Sprint("import-names ", i), false)
+			if !ok {
+				r.AddExtra("programs_outside_fragment", 1)
+				continue
+			}
+			r.Do(c)
 		}
 	}
 
